@@ -39,6 +39,8 @@ type fetchRig struct {
 	outs    [2][]core.UnsignedDataSet
 	pkA     core.PubKey
 	pkB     core.PubKey
+	bm      beaconmock.Mock
+	head    eth2p0.Root // beacon block root every attestation data answer votes for
 }
 
 // selectionProof finds a signature that makes its holder a sync committee aggregator.
@@ -60,22 +62,16 @@ func selectionProof(t *testing.T, bmock beaconmock.Mock) eth2p0.BLSSignature {
 // newFetchRig builds a fetcher with two subscribers whose beacon node answers with values of kind k.
 func newFetchRig(t *testing.T, bmock beaconmock.Mock, k UKind, v2 bool) (*fetchRig, error) {
 	t.Helper()
-	r := &fetchRig{duty: core.Duty{Slot: slot0, Type: k.Duty}, pkA: testutil.RandomCorePubKey(t), pkB: testutil.RandomCorePubKey(t)}
+	r := &fetchRig{duty: core.Duty{Slot: slot0, Type: k.Duty}, pkA: testutil.RandomCorePubKey(t), pkB: testutil.RandomCorePubKey(t), head: testutil.RandomRoot()}
 	sample, err := k.New(t, slot0)
 	if err != nil {
 		return nil, err
 	}
-	f, err := fetcher.New(bmock, func(core.PubKey) string { return "0x0000000000000000000000000000000000000000" }, true, &fetcher.GraffitiBuilder{}, 0, false)
-	if err != nil {
-		return nil, err
-	}
-	r.f = f
-	for i := 0; i < 2; i++ {
-		f.Subscribe(func(_ context.Context, _ core.Duty, set core.UnsignedDataSet) error {
-			r.outs[i] = append(r.outs[i], set)
-			return nil
-		})
-	}
+	// bmock is a struct of function fields with value receivers: configure the copy first, build the fetcher last.
+	var (
+		aggSigDB func(context.Context, core.Duty, core.PubKey, core.SubcommitteeIndex) (core.SignedData, error)
+		awaitAtt func(context.Context, uint64, uint64) (*eth2p0.AttestationData, error)
+	)
 	attDef := func(commIdx eth2p0.CommitteeIndex) core.DutyDefinition {
 		d := testutil.RandomAttestationDuty(t)
 		d.Slot = slot0
@@ -88,7 +84,7 @@ func newFetchRig(t *testing.T, bmock beaconmock.Mock, k UKind, v2 bool) (*fetchR
 	case core.AttestationData:
 		bmock.AttestationDataFunc = func(_ context.Context, slot eth2p0.Slot, idx eth2p0.CommitteeIndex) (*eth2p0.AttestationData, error) {
 			d := testutil.RandomAttestationDataPhase0()
-			d.Slot, d.Index = slot, idx
+			d.Slot, d.Index, d.BeaconBlockRoot = slot, idx, r.head
 			r.bnRet = append(r.bnRet, d)
 
 			return d, nil
@@ -102,12 +98,12 @@ func newFetchRig(t *testing.T, bmock beaconmock.Mock, k UKind, v2 bool) (*fetchR
 
 			return p, nil
 		}
-		f.RegisterAggSigDB(func(context.Context, core.Duty, core.PubKey, core.SubcommitteeIndex) (core.SignedData, error) {
+		aggSigDB = func(context.Context, core.Duty, core.PubKey, core.SubcommitteeIndex) (core.SignedData, error) {
 			rd := core.NewSignedRandao(slot0/32, testutil.RandomEth2Signature())
 			r.queried = append(r.queried, rd)
 
 			return rd, nil
-		})
+		}
 		pd := testutil.RandomProposerDuty(t)
 		pd.Slot = slot0
 		r.defSet = core.DutyDefinitionSet{r.pkA: core.NewProposerDefinition(pd)}
@@ -120,19 +116,19 @@ func newFetchRig(t *testing.T, bmock beaconmock.Mock, k UKind, v2 bool) (*fetchR
 
 			return a, nil
 		}
-		f.RegisterAggSigDB(func(context.Context, core.Duty, core.PubKey, core.SubcommitteeIndex) (core.SignedData, error) {
+		aggSigDB = func(context.Context, core.Duty, core.PubKey, core.SubcommitteeIndex) (core.SignedData, error) {
 			sel := testutil.RandomCoreBeaconCommitteeSelection()
 			r.queried = append(r.queried, sel)
 
 			return sel, nil
-		})
-		f.RegisterAwaitAttData(func(context.Context, uint64, uint64) (*eth2p0.AttestationData, error) {
+		}
+		awaitAtt = func(context.Context, uint64, uint64) (*eth2p0.AttestationData, error) {
 			d := testutil.RandomAttestationDataPhase0()
 			d.Slot = slot0
 			r.queried = append(r.queried, d)
 
 			return d, nil
-		})
+		}
 		r.defSet = core.DutyDefinitionSet{r.pkA: attDef(data.Index), r.pkB: attDef(data.Index)}
 	case core.SyncContribution, core.SyncContributions:
 		proof := selectionProof(t, bmock)
@@ -144,7 +140,7 @@ func newFetchRig(t *testing.T, bmock beaconmock.Mock, k UKind, v2 bool) (*fetchR
 
 			return c, nil
 		}
-		f.RegisterAggSigDB(func(_ context.Context, d core.Duty, _ core.PubKey, sub core.SubcommitteeIndex) (core.SignedData, error) {
+		aggSigDB = func(_ context.Context, d core.Duty, _ core.PubKey, sub core.SubcommitteeIndex) (core.SignedData, error) {
 			var out core.SignedData
 			if d.Type == core.DutyPrepareSyncContribution {
 				sel := testutil.RandomSyncCommitteeSelection()
@@ -158,9 +154,6 @@ func newFetchRig(t *testing.T, bmock beaconmock.Mock, k UKind, v2 bool) (*fetchR
 			r.queried = append(r.queried, out)
 
 			return out, nil
-		})
-		if v2 {
-			f.RegisterSyncContributionV2(func(uint64) bool { return true })
 		}
 		sd := func() core.DutyDefinition {
 			d := testutil.RandomSyncCommitteeDuty(t)
@@ -171,6 +164,27 @@ func newFetchRig(t *testing.T, bmock beaconmock.Mock, k UKind, v2 bool) (*fetchR
 		r.defSet = core.DutyDefinitionSet{r.pkA: sd(), r.pkB: sd()}
 	default:
 		return nil, fmt.Errorf("no fetcher rig for %T", sample)
+	}
+	f, err := fetcher.New(bmock, func(core.PubKey) string { return "0x0000000000000000000000000000000000000000" }, true, &fetcher.GraffitiBuilder{}, 0, false)
+	if err != nil {
+		return nil, err
+	}
+	r.f = f
+	r.bm = bmock
+	for i := 0; i < 2; i++ {
+		f.Subscribe(func(_ context.Context, _ core.Duty, set core.UnsignedDataSet) error {
+			r.outs[i] = append(r.outs[i], set)
+			return nil
+		})
+	}
+	if aggSigDB != nil {
+		f.RegisterAggSigDB(aggSigDB)
+	}
+	if awaitAtt != nil {
+		f.RegisterAwaitAttData(awaitAtt)
+	}
+	if v2 {
+		f.RegisterSyncContributionV2(func(uint64) bool { return true })
 	}
 
 	return r, nil
@@ -199,20 +213,7 @@ func probeFetcher(t *testing.T, uks []UKind) {
 					if k.Duty != core.DutyAttester {
 						return
 					}
-					// FetchOnly caches only when the data votes for the announced head: ask once to learn the root
-					var head eth2p0.Root
-					orig := bmock.AttestationDataFunc
-					fixed := testutil.RandomRoot()
-					bmock.AttestationDataFunc = func(ctx context.Context, s eth2p0.Slot, i eth2p0.CommitteeIndex) (*eth2p0.AttestationData, error) {
-						d, err := orig(ctx, s, i)
-						if d != nil {
-							d.BeaconBlockRoot = fixed
-						}
-
-						return d, err
-					}
-					head = fixed
-					if err := r.f.FetchOnly(ctx, r.duty, r.defSet, "", head); err != nil {
+					if err := r.f.FetchOnly(ctx, r.duty, r.defSet, "", r.head); err != nil {
 						skip("fetcher %s: FetchOnly fails: %v", k.Name, err)
 						return
 					}
@@ -269,6 +270,3 @@ func probeFetcher(t *testing.T, uks []UKind) {
 		})
 	}
 }
-
-func probeScheduler(t *testing.T)    {}
-func probeValidatorAPI(t *testing.T) {}
